@@ -666,6 +666,10 @@ class AttackGraph():
         if node_id in self._id_to_node:
             raise ValueError(f'Node index {node_id} already in use.')
 
+        if node.id is not None and self._id_to_node.get(node.id) is node:
+            raise ValueError(
+                f'Node "{node.full_name}" is already part of the graph.')
+
         node.id = node_id if node_id is not None else self.next_node_id
         self.next_node_id = max(node.id + 1, self.next_node_id)
 
